@@ -77,4 +77,13 @@ REG = {
   note="Trusted: TLC, value projection, data builder (harness/data). Member access on scalars/arrays/functions unpinned.",
   technique="TLA+ evaluator specification checked with TLC; exhaustive path enumeration replayed into the real evaluator",
   design="DESIGN.md section 4/C16"),
+ "C20": dict(
+  text="FRunner is the simple model (caller maps on a heap, runner = aliased map + auxiliary store); TLC explores every operation "
+       "history up to N on one and two runners sharing maps and checks the action properties Frame, AuxInvisible, "
+       "ReplaceDiscardsLocals, SetEntryCreatesMap on every transition; each history is replayed on real runners with the full "
+       "abstract state compared after every operation, and seeded random long histories recorded from the real code are validated "
+       "event by event by the trace specification Trace_Runner (with a binding self-test that corrupts one event).",
+  note="Trusted: TLC, state projection through Resolve(`this`), Get and the caller's own maps.",
+  technique="TLA+ state-machine specification model-checked with TLC; exhaustive history replay + TLC trace validation of recorded histories",
+  design="DESIGN.md section 4/C20"),
 }
